@@ -31,7 +31,9 @@ var (
 	levelsV = []tagged{{S: "strict", Valid: true}, {S: "permissive", Valid: true}, {S: "audit", Valid: true}, {S: "skip", Valid: true}, {S: ""}, {S: "Strict"}, {S: "custom"}, {S: "none"}, {S: "strict "}}
 	vtV     = []tagged{{S: "", Valid: true}, {S: "always", Valid: true}, {S: "afterCertExpiry", Valid: true}, {S: "never"}, {S: "Always"}, {S: "aftercertexpiry"}}
 	storesV = []tagged{{S: "ca:a", Valid: true}, {S: "ca:b.c", Valid: true}, {S: "signingAuthority:s_1", Valid: true}, {S: "tsa:t-1", Valid: true}, {S: "ca:A-1_b.crt", Valid: true},
-		{S: "ca"}, {S: "ca:"}, {S: ":x"}, {S: "foo:x"}, {S: "ca:a/b"}, {S: "ca:.."}, {S: "ca:."}, {S: "ca:a b"}, {S: "CA:x"}, {S: "ca:a\\b"}, {S: "tsa:../x"}, {S: "signingauthority:x"}, {S: "ca:a:b"}, {S: ""}}
+		{S: "ca"}, {S: "ca:"}, {S: ":x"}, {S: "foo:x"}, {S: "ca:a/b"}, {S: "ca:.."}, {S: "ca:."}, {S: "ca:a b"}, {S: "CA:x"}, {S: "ca:a\\b"}, {S: "tsa:../x"}, {S: "signingauthority:x"}, {S: "ca:a:b"}, {S: ""},
+		// white space at either end is part of the value (the name is handed to the trust store as written)
+		{S: "ca:acme "}, {S: " ca:acme"}, {S: "ca:acme\n"}, {S: "\tca:acme"}, {S: "ca: acme"}, {S: "tsa:t-1 "}}
 	idsV = []tagged{
 		{S: "*", Valid: true, kind: "wild"},
 		{S: "x509.subject:C=US,ST=WA,O=o1", Valid: true, kind: "x509", attrs: map[string]string{"C": "US", "ST": "WA", "O": "o1"}},
@@ -62,9 +64,16 @@ var (
 		{S: "x509.subject:C=US,ST=WA,O=o,CN", kind: "x509"},
 		{S: "x509.subject:C=US,ST=WA,O=o,CN=x\\", kind: "x509"},
 		{S: "x509.subject:C=US,ST=WA,O=o,", kind: "x509"},
+		// the same general identity as idsV[1] spelled with the alias S, and a more specific one spelled with ST (and the reverse spelling)
+		{S: "x509.subject:C=US,S=WA,O=o1", Valid: true, kind: "x509", attrs: map[string]string{"C": "US", "ST": "WA", "O": "o1"}},
+		{S: "x509.subject:C=US,ST=WA,O=o1,CN=release", Valid: true, kind: "x509", attrs: map[string]string{"C": "US", "ST": "WA", "O": "o1", "CN": "release"}},
+		{S: "x509.subject:C=DE,S=BY,O=o3", Valid: true, kind: "x509", attrs: map[string]string{"C": "DE", "ST": "BY", "O": "o3"}},
 	}
 	scopesV = []tagged{{S: "*", Valid: true, kind: "wild"}, {S: "reg.io/a", Valid: true}, {S: "reg.io/a/b", Valid: true}, {S: "reg.io/ab", Valid: true}, {S: "localhost:5000/x", Valid: true}, {S: "r-1.example.com/a_b/c-d", Valid: true}, {S: "REG.io/a", Valid: true}, {S: "reg.io/b", Valid: true}, {S: "reg.io/c", Valid: true},
-		{S: "reg.io"}, {S: "reg.io/A"}, {S: "reg.io/a:tag"}, {S: "https://reg.io/a"}, {S: "reg.io/a/"}, {S: "reg.io//a"}, {S: "reg.io/*"}, {S: ""}, {S: "reg.io/a@sha256:abc"}, {S: "/a"}, {S: "**"}}
+		{S: "reg.io"}, {S: "reg.io/A"}, {S: "reg.io/a:tag"}, {S: "https://reg.io/a"}, {S: "reg.io/a/"}, {S: "reg.io//a"}, {S: "reg.io/*"}, {S: ""}, {S: "reg.io/a@sha256:abc"}, {S: "/a"}, {S: "**"},
+		// labels of the registry part joined by something other than a dot, or a host[:port] followed by something else
+		{S: "registry_acme_io/app"}, {S: "user@registry.acme.io/app"}, {S: "registry.acme.io:port/app"}, {S: "registry.acme.io:80:80/app"}, {S: "registry acme/app"}, {S: "reg,io/a"}, {S: "reg#io/a"},
+		{S: "reg.io:5000x/a"}, {S: "reg.io./a"}, {S: "reg.io-/a"}, {S: "reg.io /a"}}
 	namesV    = []tagged{{S: "n1", Valid: true}, {S: "n2", Valid: true}, {S: "n 3", Valid: true}, {S: "ü", Valid: true}, {S: "n5", Valid: true}, {S: "N1", Valid: true}, {S: ""}}
 	versionsV = []tagged{{S: "1.0", Valid: true}, {S: ""}, {S: "2.0"}, {S: "1"}, {S: "1.0.0"}, {S: "v1.0"}}
 )
@@ -551,7 +560,8 @@ var operators = []operator{
 	{"overlapping-identities", "", func(d *docT, rng *lib.Rand) bool {
 		if s := nonSkip(d, rng); s != nil {
 			// idsV[1] (C,ST,O=o1) is contained in idsV[2] (C,S,O=o1,CN=c); idsV[4] in nothing, idsV[1] twice is a duplicate
-			pairs := [][2]int{{1, 2}, {2, 1}, {1, 1}, {3, 3}}
+			n := len(idsV)
+			pairs := [][2]int{{1, 2}, {2, 1}, {1, 1}, {3, 3}, {n - 3, n - 2}, {n - 2, n - 3}, {n - 1, 4}, {5, n - 1}, {n - 3, 1}}
 			p := pairs[rng.Intn(len(pairs))]
 			s.IDs = []tagged{idsV[p[0]], idsV[p[1]]}
 			if rng.Bool() {
